@@ -61,7 +61,7 @@ pub fn helix_points(p: [f64; 6], ts: &[f64]) -> Vec<SpacePoint> {
     ts.iter().map(|t| sp_xyz(p[3] * (t + p[4]).cos() + p[0], p[3] * (t + p[4]).sin() + p[1], p[5] / (2.0 * PI) * t + p[2])).collect()
 }
 
-pub const FAMILIES: [&str; 20] = [
+pub const FAMILIES: [&str; 21] = [
     "helix with special pitch",
     "collinear ray through the origin",
     "collinear on the x axis",
@@ -82,6 +82,7 @@ pub const FAMILIES: [&str; 20] = [
     "two or three distinct radii",
     "few distinct points repeated",
     "curler inside the drift volume with a gap in its hits",
+    "radii 1e-16 m apart in chains, z unrelated",
 ];
 // (the second line: values on either side of powers of f64::EPSILON - 4.9e-32, 2.2e-16, 1.49e-8, 6.06e-6, 1.22e-4 - where a
 // guard written on h^2, h^3 or sqrt(h) instead of |h| would sit)
@@ -207,6 +208,15 @@ pub fn family(rng: &mut Rng, fam: usize, n: usize) -> Vec<SpacePoint> {
             let k = 3 + rng.usize(3);
             let base: Vec<SpacePoint> = (0..k).map(|_| sp(rng.range(0.06, 0.24), rng.range(-0.3, 0.3), z0 + rng.range(-0.05, 0.05))).collect();
             (0..n).map(|_| base[rng.usize(k)]).collect()
+        }
+        20 => {
+            // hits whose radii differ by about 1e-16 m from one to the next (less than f64::EPSILON pairwise, more than
+            // that end to end) while z and phi wander independently: a tolerance-based ordering is not transitive here
+            let r0 = rng.range(0.11, 0.19);
+            let step = *rng.pick(&[1.1e-16, 0.7e-16, 2.0e-16, 1e-15, 1e-13]);
+            let phi = rng.range(-PI, PI);
+            let levels = 20 + rng.usize(40);
+            (0..n).map(|i| sp(r0 + step * (i % levels) as f64, phi + 0.002 * rng.range(-1.0, 1.0) + 0.003 * i as f64, (z0 + 0.02 * rng.range(-1.0, 1.0) + 0.001 * (i as f64 * 7.0 % 13.0)).clamp(-1.3, 1.3))).collect()
         }
         19 => {
             // a low-momentum curler that stays inside the drift volume: hits over most of the revolution, none in a
